@@ -109,8 +109,30 @@ def run(ck, m):
                           f"(the write can complete before the interrupt surfaces) and is then not shown again", stmt=f"{q}: show condition implied by hide condition")
     ck.expect(n_hide >= 2, f"expected >= 2 HIDE_CURSOR writes, found {n_hide}")
     fin = [t for t in body_walk(render_old) if isinstance(t, ast.Try) and t.finalbody]
-    ok = any(isinstance(c, ast.Call) and emits(c, "SGR_DEFAULT") for t in fin for st in t.finalbody for c in walk_local(st))
-    ck.ob("R1", render_old, ok, "the old-API draw must reset text attributes (SGR_DEFAULT) in its finally", stmt="BaseImage.draw.render: finally writes SGR_DEFAULT")
+    # ... unconditionally: the reset is neither under an `if`, nor multiplied by / selected on a flag (an animation ended by Ctrl-C returns
+    # normally from the drawing step with a colour still in effect)
+    def _plain_sgr(c):
+        if not emits(c, "SGR_DEFAULT"):
+            return False
+        for a_ in c.args:
+            ta = trace(render_old, a_, use=c)
+            for n_ in ast.walk(ta):
+                if isinstance(n_, (ast.Name, ast.Attribute)) and (dotted(n_) or "").split(".")[-1] == "SGR_DEFAULT":
+                    # the constant must sit at the top of the argument or inside concatenations only
+                    def plain(e):
+                        if e is n_:
+                            return True
+                        if isinstance(e, ast.BinOp) and isinstance(e.op, ast.Add):
+                            return plain(e.left) or plain(e.right)
+                        if isinstance(e, ast.JoinedStr):
+                            return any(isinstance(v_, ast.FormattedValue) and plain(v_.value) for v_ in e.values)
+                        return False
+                    if plain(ta):
+                        return True
+        return False
+    ok = any(isinstance(c, ast.Call) and _plain_sgr(c) and not (_guard_set(c) - _guard_set(t)) for t in fin for st in t.finalbody for c in walk_local(st))
+    ck.ob("R1", render_old, ok, "the old-API draw must reset text attributes (SGR_DEFAULT) in its finally, unconditionally (not under a test, not multiplied by or selected on a flag)",
+          stmt="BaseImage.draw.render: finally writes SGR_DEFAULT")
 
     # ---- R2 ----------------------------------------------------------------------------
     def render_writes(fn):
